@@ -186,6 +186,11 @@ def execute(sc, ctx):
             assoc.network_timeout_response = rq["timeout_response"]
             lab = ctx.label(assoc)
             o = ctx.obs["req"][i] = {"label": lab, "established": assoc.is_established, "results": []}
+            if not assoc.is_established:
+                # documented usage: only act on an association that was established
+                o["done_t"] = sim.now
+                sim.record("script_done", who=lab)
+                return
             for op in rq["ops"]:
                 o["results"].append(_do_op(ctx, ae, assoc, op))
             fin = rq["final"]
@@ -296,12 +301,12 @@ def fault_fired(r):
     return any(h["kind"] in ("net_fault", "stall") for h in r.hist)
 
 
-def check_single_outcome(pid, r):
+def check_single_outcome(pid, r, skip=()):
     """Each side reports exactly one terminal outcome and fires its terminal
     event once; is_established is false at the end."""
     out = []
     for lab, st in sorted(r.final.items()):
-        if "error" in st:
+        if "error" in st or lab in skip:
             continue
         flags = [k for k in ("released", "aborted", "rejected") if st[k]]
         tevh = C.terminal_events(r, lab)
@@ -333,7 +338,7 @@ def _negotiated(r, lab):
     """The association got as far as sending or receiving an A-ASSOCIATE-RQ."""
     if lab.startswith("req"):
         return any(h["pdu"] == "A_ASSOCIATE_RQ" for h in r.evts(lab, "EVT_PDU_SENT"))
-    return any(h["pdu"] == "A_ASSOCIATE_RQ" for h in r.evts(lab, "EVT_PDU_RECV"))
+    return bool(r.evts(lab, "EVT_REQUESTED"))
 
 
 def outcome(st):
@@ -343,11 +348,11 @@ def outcome(st):
     return "none"
 
 
-def check_agreement(pid, r, faulty):
+def check_agreement(pid, r, faulty, skip=()):
     """Pairwise agreement of the two sides' outcomes."""
     out = []
     for req, acc, cid in pairs(r):
-        if req is None or acc is None:
+        if req is None or acc is None or req in skip or acc in skip:
             continue
         if not _negotiated(r, req) or not _negotiated(r, acc):
             continue
@@ -390,7 +395,7 @@ def _rp_before_abort(r, lab):
     return rp[0] < ab[0]
 
 
-def check_liveness(pid, r, sc):
+def check_liveness(pid, r, sc, skip=()):
     out = []
     if r.failure:
         roles = sorted(set((t.get("role") or "?").split(":")[0] for t in (r.failure_info or []))) if r.failure == "stuck" else []
@@ -402,10 +407,12 @@ def check_liveness(pid, r, sc):
         return out
     for t in r.tasks:
         role = t["role"] or ""
+        if role.split(":")[-1] in skip:
+            continue
         if role.startswith(("assoc:", "dul:")) and t["exit_t"] is not None and t["exit_t"] > done + bound:
             out.append(C.v("liveness", "%s/late-exit/%s" % (pid, role.split(":")[0]), "%s exited %.3fs after the last user action returned (bound %.3f)" % (role, t["exit_t"] - done, bound)))
     for lab, st in sorted(r.final.items()):
-        if "error" in st:
+        if "error" in st or lab in skip:
             continue
         if st.get("alive") or st.get("dul_alive"):
             out.append(C.v("liveness", "%s/thread-left/%s" % (pid, lab[:3]), "%s threads still alive: %s" % (lab, st)))
@@ -571,3 +578,31 @@ def check_fsm_lockstep(pid, r):
                     out.append(C.v("fsm-effect", "%s/wrong-abort-source/%s/%d" % (pid, act, b[8]), "%s: %s sent A-ABORT with source %d, PS3.8 says %d" % (lab, act, b[8], eff["abort_source"])))
             sent_since = []
     return out
+
+
+import re as _re
+
+_CELL_RE = _re.compile(r"Invalid event '(Evt\d+)' for the current state '(Sta\d+)'")
+
+
+def thread_deaths(pid, r):
+    """Violations for simulated threads that died with an exception; an
+    InvalidEventError is identified by its (state, event) cell and the role of
+    the provider.  Returns (violations, labels of associations whose provider
+    or association thread died - their other clauses are consequences)."""
+    out = []
+    dead = set()
+    for d in r.died:
+        role = d["role"] or "?"
+        kind = role.split(":")[0]
+        lab = role.split(":")[1] if ":" in role else None
+        if lab:
+            dead.add(lab)
+        m = _CELL_RE.search(d["msg"] or "")
+        if d["exc"] == "InvalidEventError" and m:
+            side = lab[:3] if lab else "?"
+            out.append(C.v("undefined-event", "%s/undefined-event/%s/%s+%s" % (pid, side, m.group(2), m.group(1)),
+                           "provider thread %s died: %s" % (role, d["msg"])))
+        else:
+            out.append(C.v("thread-died", "%s/thread-died/%s/%s" % (pid, kind, d["exc"]), "thread %s died: %s: %s" % (role, d["exc"], d["msg"])))
+    return out, dead
